@@ -31,6 +31,12 @@ NextTime == \/ /\ slot <= 8 /\ \E c \in Choices(slot) : s' = s \o c
                /\ UNCHANGED junked
             \/ /\ slot <= 8 /\ ~junked /\ (Rich \/ slot \in {1, 4, 8}) /\ \E j \in Junk : s' = s \o j
                /\ junked' = TRUE /\ UNCHANGED slot
+            \* a slot of the right width in which a digit is replaced by a blank or a letter (once per string)
+            \/ /\ slot <= 6 /\ ~junked /\ (Rich \/ slot \in {2, 3, 5})
+               /\ \E c \in Choices(slot), k \in {1, 2}, ch \in (IF Rich THEN {32, 97} ELSE {32}) :
+                      k <= Len(c) /\ s' = s \o [c EXCEPT ![k] = ch]
+               /\ slot' \in {slot + 1, 9}
+               /\ junked' = TRUE
 InitNum == s = <<>> /\ slot = 0 /\ junked = FALSE
 NextNum == Len(s) < MaxStr /\ \E c \in NumSyms : s' = Append(s, c) /\ UNCHANGED <<slot, junked>>
 Init == IF Mode = "time" THEN InitTime ELSE InitNum
